@@ -6,6 +6,8 @@ import PdfModel.Model.Offsets
 import PdfModel.Model.XrefFile
 import PdfModel.Spec.XrefTable
 import PdfModel.Drv.Obj
+import PdfModel.Drv.C05
+import PdfModel.Model.XrefStreamFilters
 
 /-! Line-protocol handler for the C02 streams.
 
@@ -31,6 +33,12 @@ import PdfModel.Drv.Obj
   → `<hex>`
   c02.walk <hex> <start>           `Backend::read_xref_table_and_trailer(start, ..)` = `XrefTable.readXrefTableAndTrailer`
                                    (Model/XrefFile: `Offsets.loadTable` with the classic table reader as section parser)
+  → `ok <entries> <trailer value>` | `err` | `panic` | `oof`
+  c02.walkf <allowErr 0|1> <hex> <start> <ext>
+                                   the same walk with both section formats concrete: `XrefSec.loadTableC`
+                                   (Model/XrefStreamSection) with the stream data decoded by the filter model
+                                   (`XrefFilters.decOf`, Model/XrefStreamFilters over Model/Enc); `<ext>` is the table
+                                   of third-party inflate results in the notation of c05.chain (`z.<in>.<out>;…`)
   → `ok <entries> <trailer value>` | `err` | `panic` | `oof`
   (`<section>` as in c02.merge: subsections joined by `;`, `-` for none; values in the C03 notation, Drv/Obj)
 -/
@@ -131,6 +139,13 @@ def handle (args : List String) : String :=
     match parseSection sec, DrvObj.valOf trailer, DrvObj.tapeOf tape, bytesOfHex tail with
     | some subs, some (.dict d), some tp, some tl =>
       hexOfBytes (XrefTableSpec.writeSection (fun (r : List UInt8) => r) subs d tl tp).1
+    | _, _, _, _ => "bad-request"
+  | ["c02.walkf", allow, hex, start, ext] =>
+    match boolOf allow, bytesOfHex hex, natOf start, DrvC05.parseExt ext with
+    | some a, some bs, some st, some tab =>
+      match XrefSec.loadTableC tableEnv (XrefFilters.decOf (DrvC05.extOf tab) a) a noObjects (bs.length + 2) bs st with
+      | .ok (t, d) => s!"ok {joinWith "," (t.map showEntry)} {DrvObj.showVal (.dict d)}"
+      | o => o.tag
     | _, _, _, _ => "bad-request"
   | ["c02.walk", hex, start] =>
     match bytesOfHex hex, natOf start with
